@@ -26,6 +26,11 @@ def main():
               "sin/cos of omega: fresh pair with c^2+s^2=1 (over-approximation, sound for identities)",
               "pi = exact rational of the double pi; radians/degrees are linear scalings",
               "np.round = round-half-even on reals (ToInt encoding); astype(int) of an integer-valued real is the identity")
+    ck.encoded("ImageD11/sinograms/roi_iradon.py:_sinogram_pad, iradon (filter_name=None, interpolation='linear')")
+    ck.bound("iradon back-projection: sinograms of 3..5 rows x 2..7 projections at fixed angles, projection shift 0.25, output pads 0..2, workers 1, 2, 3, 4, 7, one ROI mask; sinogram values free reals",
+             "_sinogram_pad: every sinogram height n >= 1 and every padded length D >= n (unbounded integers)")
+    ck.assume("numpy.interp is replaced by its documented contract (piecewise linear, left/right values outside) on concrete abscissae and symbolic ordinates; ThreadPoolExecutor by a serial pool (results are accumulated by the calling thread in both)",
+              "np.ceil(np.sqrt(2) * size) in _sinogram_pad is cut to an arbitrary integer D >= n")
     ck.stub("module global np -> pysym.NPProxy (round/ceil/abs/where on symbolic elements); everything else is real numpy on object arrays")
 
     def sym_inputs():
@@ -190,7 +195,101 @@ def main():
         chk("get_voxel_idx.ydist=|ly|", yd[0], abs(G.sample_to_lab(v["sx"], v["sy"], v["y0"], v["dty"], o)[1]))
         return (len(bad) > 0), "; ".join(bad[:4]) if bad else "all identities hold numerically at the model point"
 
+    # ---- back-projection structure of roi_iradon.iradon (filter_name=None: the FFT ramp filter is behind a C boundary and outside the claim)
+    import ImageD11.sinograms.roi_iradon as RI
+    from fractions import Fraction
+    def interp_stub(t, xp, fp, left=None, right=None):
+        """numpy.interp's documented contract (piecewise-linear, left/right outside) on concrete t, xp and symbolic fp"""
+        t = np.asarray(t, float); xp = [Fraction(float(v)) for v in xp]; out = np.empty(t.shape, dtype=object)
+        for idx in np.ndindex(t.shape):
+            tv = Fraction(float(t[idx]))
+            if tv < xp[0]: out[idx] = fp[0] if left is None else left
+            elif tv > xp[-1]: out[idx] = fp[-1] if right is None else right
+            elif tv == xp[-1]: out[idx] = fp[len(xp) - 1]
+            else:
+                j = max(k for k in range(len(xp) - 1) if xp[k] <= tv)
+                out[idx] = fp[j] + (fp[j + 1] - fp[j]) * ((tv - xp[j]) / (xp[j + 1] - xp[j]))
+        return out
+    class SerialPool:
+        def __init__(s, max_workers=None): s.max_workers = max_workers
+        def __enter__(s): return s
+        def __exit__(s, *a): return False
+        def map(s, f, it): return [f(x) for x in it]
+    class _CF:
+        ThreadPoolExecutor = SerialPool
+    class _NPI(pysym.NPProxy):
+        def interp(s, *a, **k): return interp_stub(*a, **k)
+        def pad(s, a, pw, mode="constant", constant_values=0):
+            a = np.asarray(a)
+            if a.dtype != object: return np.pad(a, pw, mode=mode, constant_values=constant_values)
+            (b0, a0), (b1, a1) = pw; out = np.empty((a.shape[0] + b0 + a0, a.shape[1] + b1 + a1), dtype=object); out[...] = constant_values
+            out[b0:b0 + a.shape[0], b1:b1 + a.shape[1]] = a; return out
+        def zeros(s, shape, dtype=None, **k):
+            if dtype == object:
+                a = np.empty(shape, dtype=object); a[...] = 0; return a
+            return pysym.NPProxy.zeros(s, shape, dtype, **k)
+    CONFIGS = [(3, (0.0, 90.0), 0), (4, (0.0, 60.0, 120.0), 1), (3, (0.0, 45.0, 90.0, 135.0, 180.0), 0)] if args.tier == "quick" else \
+              [(3, (0.0, 90.0), 0), (4, (0.0, 60.0, 120.0), 1), (3, (0.0, 45.0, 90.0, 135.0, 180.0), 0), (5, (0.0, 30.0, 60.0, 90.0, 120.0, 150.0, 180.0), 2), (4, (10.0, 100.0, 190.0, 280.0), 0)]
+    def mk_iradon(n, theta, padv):
+        def run():
+            S1 = np.array([[var("s_%d_%d" % (i, j)) for j in range(len(theta))] for i in range(n)], dtype=object)
+            S2 = np.array([[var("u_%d_%d" % (i, j)) for j in range(len(theta))] for i in range(n)], dtype=object); a, b = var("a"), var("b")
+            sh = np.full((n, len(theta)), 0.25); osz = n + padv; th = np.array(theta)
+            mask = np.zeros((osz, osz), bool); mask[::2, 1::2] = True; mask[1, 1] = True
+            with pysym.patched((RI, "np", _NPI()), (RI, "concurrent", type("C", (), {"futures": _CF}))):
+                call = lambda S, w, m=None: RI.iradon(S, theta=th, output_size=osz, filter_name=None, interpolation="linear", projection_shifts=sh, mask=m, workers=w)
+                r1 = call(S1, 1); goals = []
+                for w in (2, 3, 4, 7):
+                    rw = call(S1, w)
+                    goals.append(("iradon(workers=%d) = iradon(workers=1) on every pixel (each projection back-projected exactly once)" % w, z3.And([T(x) == T(y) for x, y in zip(rw.ravel(), r1.ravel())])))
+                rm = call(S1, 2, mask)
+                goals.append(("iradon with an ROI mask = unmasked reconstruction on the mask and 0 elsewhere", z3.And([T(x) == (T(y) if m else 0) for x, y, m in zip(rm.ravel(), r1.ravel(), mask.ravel())])))
+                r2 = call(S2, 1); rl = call(a * S1 + b * S2, 3)
+                goals.append(("iradon is linear in the sinogram", z3.And([T(x) == a.t * T(y) + b.t * T(z) for x, y, z in zip(rl.ravel(), r1.ravel(), r2.ravel())])))
+            return dict(goals=goals, inputs={})
+        return run
+    def replay_iradon(n, theta, padv):
+        def rp(vals, label):
+            rng = np.random.RandomState(common.SEED); S = rng.uniform(0, 1, (n, len(theta))); sh = np.full(S.shape, 0.25); th = np.array(theta); osz = n + padv
+            r1 = RI.iradon(S, theta=th, output_size=osz, filter_name=None, projection_shifts=sh, workers=1)
+            for w in (2, 3, 4, 7):
+                rw = RI.iradon(S, theta=th, output_size=osz, filter_name=None, projection_shifts=sh, workers=w)
+                if not np.allclose(rw, r1, rtol=1e-9, atol=1e-12): return True, "iradon(workers=%d) differs from workers=1 for a %dx%d sinogram: max diff %g" % (w, n, len(theta), abs(rw - r1).max())
+            mask = np.zeros((osz, osz), bool); mask[::2, 1::2] = True; mask[1, 1] = True
+            rm = RI.iradon(S, theta=th, output_size=osz, filter_name=None, projection_shifts=sh, workers=2, mask=mask)
+            if not (np.allclose(rm[mask], r1[mask]) and (rm[~mask] == 0).all()): return True, "masked reconstruction differs from the unmasked one on the mask"
+            S2 = rng.uniform(0, 1, S.shape); r2 = RI.iradon(S2, theta=th, output_size=osz, filter_name=None, projection_shifts=sh, workers=1)
+            rl = RI.iradon(2 * S - 3 * S2, theta=th, output_size=osz, filter_name=None, projection_shifts=sh, workers=3)
+            if not np.allclose(rl, 2 * r1 - 3 * r2, rtol=1e-9, atol=1e-12): return True, "iradon(2 S1 - 3 S2) != 2 iradon(S1) - 3 iradon(S2)"
+            return False, "worker / mask / linearity identities hold numerically"
+        return rp
+    def fn_pad():
+        """_sinogram_pad keeps the rotation-axis row n//2 on the centre row diagonal//2 of the padded array (iradon's x = arange(N) - N//2)"""
+        n, D = ivar("n"), ivar("D"); CTX.hyp += [T(n) >= 1, T(D) >= T(n)]
+        class _NPD(pysym.NPProxy):
+            def ceil(s, x): return D          # diagonal = int(ceil(sqrt(2) * size)): any integer >= n
+            def sqrt(s, x): return 1.0
+        intp = lambda x: x
+        with pysym.patched((RI, "np", _NPD()), (RI, "int", intp)):
+            (pb, pa), (z0, z1) = RI._sinogram_pad(n, var("o"))
+        try: delattr(RI, "int")
+        except AttributeError: pass
+        fl = lambda x: z3.ToReal(z3.ToInt(T(x) / 2))
+        goals = [("pad: row n//2 of the sinogram lands on row diagonal//2 of the padded array", T(pb) + fl(n) == fl(D)),
+                 ("pad: before + after + n = diagonal, both >= 0", z3.And(T(pb) + T(pa) + T(n) == T(D), T(pb) >= 0, T(pa) >= 0)),
+                 ("pad: no padding along the projection axis", z3.BoolVal(z0 == 0 and z1 == 0))]
+        return dict(goals=goals, inputs={"n": T(n), "D": T(D)})
+    def replay_pad(vals, label):
+        for n in range(1, 200):
+            for o in range(n, n + 40):
+                (pb, pa), _ = RI._sinogram_pad(n, o); D = int(np.ceil(np.sqrt(2) * o))
+                if pb + n // 2 != D // 2 or pb < 0 or pa < 0 or pb + pa + n != D: return True, "_sinogram_pad(%d, %d) = (%d, %d): row n//2 does not land on row %d of the padded array" % (n, o, pb, pa, D // 2)
+        return False, "pad keeps the centre row"
+
     tmo = 20000 if args.tier == "quick" else 120000
+    harness.run_identities(ck, "iradon-pad", fn_pad, replay_pad, tmo, expect_paths=1)
+    for n, theta, padv in CONFIGS:
+        harness.run_identities(ck, "iradon-backprojection n=%d angles=%d pad=%d" % (n, len(theta), padv), mk_iradon(n, theta, padv), replay_iradon(n, theta, padv), tmo, expect_paths=1)
     harness.run_identities(ck, "inverse-pairs", fn_inverse, replay, tmo, expect_paths=1)
     harness.run_identities(ck, "in-beam", fn_inbeam, replay, tmo, expect_paths=1)
     harness.run_identities(ck, "discretisation-masks-shift-pad", fn_discrete, replay, tmo, expect_paths=1)
@@ -198,7 +297,8 @@ def main():
     ck.finish("Each conversion function of sinograms/geometry.py is executed on symbolic reals (pysym); every inverse pair, the in-beam "
               "condition (lab y = 0 at the returned dty, for the sample, step and recon entry points), the discretisation round trip, "
               "the agreement of the six dtyimask variants, shift/pad and the numba get_voxel_idx copy are validity queries in z3 "
-              "(unsat of the negation = holds for all real inputs, no size bound). Reconstruction (iradon) sentences: not applicable.")
+              "(unsat of the negation = holds for all real inputs, no size bound). The back-projection of roi_iradon.iradon (filter_name=None) is executed on symbolic sinograms for a few small shapes: worker-count independence, ROI-mask restriction and linearity are validity queries; "
+              "_sinogram_pad's centring is an unbounded integer query. The FFT ramp filter and the 1.5-pixel reconstruction accuracy sentence are not applicable.")
 
 if __name__ == "__main__":
     common.run_main(main)
